@@ -16,7 +16,22 @@ ROOT = os.path.dirname(os.path.dirname(os.path.abspath(__file__)))
 def main():
     src = sys.argv[1]
     results = {}
-    for f in sys.argv[2:]:
+    inplace = {}
+    files = []
+    for a in sys.argv[2:]:
+        if a.startswith("--inplace="):
+            # results of `tools/seedrun.py <dir> --inplace` (git -C /repo apply; ./check in /verif; git -C /repo checkout -- .)
+            for l in open(a.split("=", 1)[1]):
+                try:
+                    r = json.loads(l)
+                except Exception:
+                    continue
+                inplace[r["id"]] = {c: dict(rc=v.get("rc"), violation_line=v.get("violation")) for c, v in (r.get("checks") or {}).items()}
+                if not r.get("applies", True):
+                    inplace[r["id"]] = "patch does not apply to /repo HEAD"
+        else:
+            files.append(a)
+    for f in files:
         if not os.path.exists(f):
             continue
         for l in open(f):
@@ -52,8 +67,12 @@ def main():
                  confirmed=dict(patch_applies=r.get("applies"), existing_suite_passes_with_patch=r.get("suite_ok"),
                                 suite_tail=r.get("suite_tail"), demo_fails_with_patch=r.get("demo_fails_with"),
                                 demo_passes_without_patch=r.get("demo_passes_without"), all=confirmed),
-                 what_was_run=["tools/seedrun.py <dir>  (patch applied to a scratch copy of /repo, or with --inplace to /repo itself and undone; "
-                               "existing test-suite; demo with and without the patch; ./check <property> --tier quick)"],
+                 what_was_run=["tools/seedrun.py <dir>: the patch applied to a scratch copy of /repo (PYTHONPATH points at it); the existing "
+                               "test-suite with the patch; demo.py with and without the patch; `./check <property> --tier quick` from a "
+                               "private copy of /verif against that scratch tree"] +
+                              (["tools/seedrun.py <dir> --inplace: `git -C /repo apply patch.diff`, `./check <property> --tier quick` in /verif "
+                                "itself, `git -C /repo checkout -- .` straight afterwards"] if sid in inplace else []),
+                 checks_inplace=inplace.get(sid),
                  checks={c: dict(rc=v.get("rc"), violation_line=v.get("violation"), why=v.get("why")) for c, v in r.get("checks", {}).items()},
                  caught_by=sorted(caught),
                  note=NOTES.get(sid, ""))
